@@ -19,7 +19,7 @@ import (
 
 // Op is one step of a history. Histories are the replay format.
 type Op struct {
-	// store | revert | query | snap | restart | prune (n = oldest block kept)
+	// store | revert | query | snap | restart | prune (n = oldest block kept) | l1 (n = the L1 head stored on the node)
 	// storefail / revertfail: the batch commit of the Store / RevertHead fails (injected)
 	// restartcore: restart as a node without --prune-mode (blockchain.New's default initialiser)
 	// restartfault: restart whose lazy initialisation hits a transient read error
@@ -64,6 +64,9 @@ type Variant struct {
 	// DefaultInitFloorAware: a Blockchain built WITHOUT an initialiser option copes with a pruned
 	// database (the repair of the second open finding): the model then restarts floor-aware.
 	DefaultInitFloorAware bool
+	// SubL1Tolerant: starknet_subscribeEvents (v9 / v10) accepts a node that has not stored an L1 head
+	// (the repair proposed in round 5): the model's `l1Tolerant`.
+	SubL1Tolerant bool
 }
 
 func b2s(b bool) string {
@@ -96,7 +99,9 @@ type World struct {
 	preFirst     int // number of the first pre-confirmed block the running query may be served from; -1: none
 	drvDead      bool
 	pool         *DrvPool
-	quiet        bool // no correspondence, oracle only
+	quiet        bool                        // no correspondence, oracle only
+	L1           int                         // the L1 head stored on the node (-1: never set)
+	reqMut       func(filter map[string]any) // rewrites the next wire requests (requests Q cannot express)
 }
 
 func (w *World) ask(line string) string {
@@ -440,9 +445,13 @@ func (w *World) runQuery(q Q) {
 		w.preFirst = head - q.PreBack + 1
 	}
 	defer func() { w.preFirst = -1 }()
-	if q.Rpc && (q.FromTag == "hash" && q.From > head || q.ToTag == "hash" && q.To > head) {
-		return // no such block to take the hash of: not a query
+	// a block hash that no stored block has, or whose index entry was pruned (PruneUpto keeps the entry
+	// of floor-1 only), does not resolve: the request must be refused with "block not found"
+	unresolvable := func(tag string, num int) bool {
+		return q.Rpc && tag == "hash" && (num > head || num+1 < w.Floor)
 	}
+	notFoundExpected := unresolvable(q.FromTag, q.From) || unresolvable(q.ToTag, q.To) ||
+		(q.Rpc && w.L1 < 0 && (q.FromTag == "l1_accepted" || q.ToTag == "l1_accepted"))
 	var all []Em
 	tok := q.Tok
 	pages := 0
@@ -454,9 +463,6 @@ func (w *World) runQuery(q Q) {
 		w.Res.Hit("query:forged-token")
 	}
 	prunedExpected := start <= uint64(head) && start < uint64(w.Floor)
-	if q.Rpc && (q.FromTag == "hash" && q.From < w.Floor || q.ToTag == "hash" && q.To < w.Floor) {
-		return // the hash of a pruned block no longer resolves: not a query
-	}
 	agree := true
 	fail := ""
 	rep := func() map[string]any { return map[string]any{"history": w.replay(), "query": q} }
@@ -481,8 +487,15 @@ func (w *World) runQuery(q Q) {
 			mtok = fmt.Sprintf("%x %x", b, p)
 		}
 		if w.Drv != nil && !w.drvDead {
-			model := w.ask(fmt.Sprintf("qp %s %x %x %s %x %x %x %s", strings.NewReplacer("A=", "", "K=", "").Replace(q.F.String()),
-				fromB, toB, mtok, q.Chunk, q.Limit, head-q.PreBack, preLine(pre, q.Pre)))
+			var model string
+			if q.Rpc {
+				// the model reads the request itself: block ids, address list, token STRING (ModelRpc.lean)
+				model = w.ask(w.rpcLine(q, tok, pre))
+				w.Res.Hit("query:rpc-request-resolved-by-the-model")
+			} else {
+				model = w.ask(fmt.Sprintf("qp %s %x %x %s %x %x %x %s", strings.NewReplacer("A=", "", "K=", "").Replace(q.F.String()),
+					fromB, toB, mtok, q.Chunk, q.Limit, head-q.PreBack, preLine(pre, q.Pre)))
+			}
 			w.Res.Compared(1)
 			if model != pg.String() {
 				agree = false
@@ -491,6 +504,16 @@ func (w *World) runQuery(q Q) {
 			}
 		}
 		pages++
+		if notFoundExpected {
+			if pg.Err == "rpc:blocknotfound" {
+				w.Res.Hit("query:unresolvable-block-hash-refused")
+			} else if !w.Tampered {
+				w.Res.Violate(lib.Violation{Sig: "unresolvable-block-id-not-refused",
+					What:   fmt.Sprintf("%s: %v names a block hash that does not resolve (head %d, floor %d) and was answered with %s", w.Name, q, head, w.Floor, pg.String()),
+					Replay: rep()})
+			}
+			return
+		}
 		if prunedExpected {
 			if pg.Err == "pruned" {
 				w.Res.Hit("query:pruned-range-refused")
@@ -625,7 +648,7 @@ func (w *World) checkTokenParsing(r *lib.RNG) {
 		got := realPage(w.Node, w, q, nil, s)
 		w.Res.Hit("token-parse:checked")
 		if perr != nil {
-			if got.Err != "badtoken" {
+			if got.Err != "rpc:badtoken" {
 				w.Res.Violate(lib.Violation{Sig: "malformed-continuation-token-accepted",
 					What:   fmt.Sprintf("token %q does not parse (%v) but starknet_getEvents (%s) answered %s", s, perr, q.Api, got.String()),
 					Replay: map[string]any{"history": w.replay(), "query": q, "token": s}})
@@ -842,6 +865,8 @@ func (w *World) do(op Op) {
 		w.tamper(op.T)
 	case "query":
 		w.runQuery(*op.Q)
+	case "l1":
+		w.setL1(op.N)
 	}
 }
 
@@ -975,7 +1000,7 @@ func (w *World) hitRestartBranch() {
 
 // newWorld starts an empty node + model.
 func newWorld(name string, r *lib.RNG, res *lib.Result, pool *DrvPool, v Variant, newState, prunerInit bool) *World {
-	w := &World{Src: newSource(r, !newState), Node: newNode(newState, prunerInit), Res: res, Name: name}
+	w := &World{Src: newSource(r, !newState), Node: newNode(newState, prunerInit), Res: res, Name: name, L1: -1}
 	w.startDriver(pool, v, false)
 	return w
 }
@@ -1018,7 +1043,7 @@ func (w *World) close() {
 func (w *World) fork(name string, r *lib.RNG, id uint64, pool *DrvPool, v Variant, prunerInit bool) *World {
 	f := &World{Src: w.Src.fork(r, id), Node: w.Node.forkNode(prunerInit), Res: w.Res, Name: name,
 		Chain: append([]Plan(nil), w.Chain...), Bundles: append([]*lib.Bundle(nil), w.Bundles...),
-		Hist: append([]Op{}, w.Hist...), Floor: w.Floor, Pruned: w.Pruned}
+		Hist: append([]Op{}, w.Hist...), Floor: w.Floor, Pruned: w.Pruned, L1: w.L1}
 	f.startDriver(pool, v, true)
 	return f
 }
@@ -1188,4 +1213,74 @@ func (w *World) tamper(t string) {
 		w.Res.Fatalf("tamper: unknown %q", t)
 	}
 	w.Res.Hit("tamper:" + strings.SplitN(t, " ", 2)[0])
+}
+
+// cpsArg renders a string as the driver's STR argument (code points in hex).
+func cpsArg(s string) string {
+	if s == "" {
+		return "-"
+	}
+	var parts []string
+	for _, r := range s {
+		parts = append(parts, fmt.Sprintf("%x", r))
+	}
+	return strings.Join(parts, ",")
+}
+
+func (w *World) idArg(tag string, num int) string {
+	switch tag {
+	case "omitted":
+		return "-"
+	case "latest":
+		return "latest"
+	case "pre_confirmed":
+		return "pre"
+	case "l1_accepted":
+		return "l1"
+	case "hash":
+		if num >= len(w.Bundles) {
+			return "hx"
+		}
+		return fmt.Sprintf("h%x", num)
+	default:
+		return fmt.Sprintf("n%x", num)
+	}
+}
+
+func apiArg(api string) string {
+	if api == "" {
+		return "v10"
+	}
+	return api
+}
+
+func (w *World) l1Arg() string {
+	if w.L1 < 0 {
+		return "-"
+	}
+	return fmt.Sprintf("%x", w.L1)
+}
+
+// setL1 stores an L1 head on the node.
+func (w *World) setL1(n int) {
+	if err := w.Node.BC.SetL1Head(&core.L1Head{BlockNumber: uint64(n), BlockHash: lib.F(1), StateRoot: lib.F(2)}); err != nil {
+		w.Res.Fatalf("SetL1Head: %v", err)
+		return
+	}
+	w.L1 = n
+}
+
+// rpcLine is the `rpc` request of the model driver for the wire request of q (what wireRequest sends).
+func (w *World) rpcLine(q Q, tok string, pre []*pending.PreConfirmed) string {
+	f := q.F
+	if q.Api != "" && len(f.Addrs) > 1 {
+		f.Addrs = f.Addrs[:1] // v8 / v9 take one address: wireRequest sends the first
+	}
+	head := len(w.Chain) - 1
+	pl := preLine(pre, q.Pre)
+	if q.Api == "v8" {
+		pl = "-"
+	}
+	return fmt.Sprintf("rpc %s %s %s %s %x %x %s %x %s", apiArg(q.Api), w.idArg(q.FromTag, q.From), w.idArg(q.ToTag, q.To),
+		strings.NewReplacer("A=", "", "K=", "").Replace(f.String())+" "+cpsArg(tok), q.Chunk, q.Limit, w.l1Arg(), max(head-q.PreBack, 0), pl)
 }
